@@ -139,10 +139,41 @@ FILLER = {'table': ('fill', 'fill'), 'string': ('zz', 'zz'), 'formula': ('x', 'x
 SL_ITEMS = ['p', 'q', 'r', 's']
 
 
+def make_notation(alts, short=False, variant=0, rng=None):
+    """how the author writes the alternatives (mirror of BestAlternative!Notations): the shortest legal notation
+    (short), the most explicit one, or a random legal one (rng)"""
+    items = []
+    for i, a in enumerate(alts, 1):
+        c1 = frac(a['credit']) == 1
+        nomsg = a['msg']['len'] == 0
+        single = len(a['vals']) == 1
+        if rng is not None:
+            bare = c1 and nomsg and rng.random() < 0.5
+            has_credit = (not bare) and ((not c1) or rng.random() < 0.5)
+            has_msg = (not bare) and ((not nomsg) or rng.random() < 0.5)
+            one = single and rng.random() < 0.5
+        elif short:
+            bare = c1 and nomsg
+            has_credit, has_msg = (not c1), (not nomsg)
+            one = single
+        else:
+            bare = False
+            has_credit = has_msg = True
+            one = single and (i + variant) % 2 == 1
+        items.append({'t': 'bare' if bare else 'dict', 'expect': {'t': 'one' if one else 'many', 'vs': a['vals']},
+                      'hasCredit': has_credit, 'credit': a['credit'] if has_credit else [1, 1],
+                      'hasMsg': has_msg, 'msg': a['msg'] if has_msg else NOMSG})
+    it = items[0]
+    may_single = len(items) == 1 and not (it['t'] == 'bare' and it['expect']['t'] == 'many')
+    if may_single and (short if rng is None else rng.random() < 0.5):
+        return {'t': 'single', 'item': it, 'items': []}
+    return {'t': 'tuple', 'items': items, 'item': items[0]}
+
+
 class Rendering(object):
     """answers tuple, grader options and submission realising the abstract alternatives in one grader class"""
 
-    def __init__(self, gname, alts, short=False, listlen=2, variant=0):
+    def __init__(self, gname, alts, short=False, listlen=2, variant=0, notation=None):
         import mitxgraders
         from mitxgraders import exceptions
         self.gname, self.alts, self.short = gname, alts, short
@@ -161,23 +192,23 @@ class Rendering(object):
             self.options = {'variables': ['x'], 'samples': 2}
         elif gname == 'matrix':
             self.options = {'answer_shape_mismatch': {'is_raised': True, 'msg_detail': 'shape'}}
-        answers = []
-        for i, a in enumerate(alts, 1):
-            expects = tuple(self.value(i, j, a, v) for j, v in enumerate(a['vals'], 1))
-            text = marker('A', a['msg'])
-            plain = short and frac(a['credit']) == 1 and not text
-            expect = expects[0] if (len(expects) == 1 and (short or (i + variant) % 2)) else expects
-            if plain and not (len(alts) == 1 and isinstance(expect, tuple)):
-                answers.append(expect)
-            else:
-                d = {'expect': expect}
-                if not (short and frac(a['credit']) == 1):
-                    d['grade_decimal'] = num(a['credit'], short)
-                if text or not short:
-                    d['msg'] = text
-                answers.append(d)
-        self.answers = answers[0] if (len(answers) == 1 and short and not isinstance(answers[0], tuple)) \
-            else tuple(answers)
+        self.notation = notation or make_notation(alts, short, variant)
+        nt = self.notation
+        items = [nt['item']] if nt['t'] == 'single' else nt['items']
+        written = []
+        for i, (it, a) in enumerate(zip(items, alts), 1):
+            expects = tuple(self.value(i, j, a, v) for j, v in enumerate(it['expect']['vs'], 1))
+            expect = expects[0] if it['expect']['t'] == 'one' else expects
+            if it['t'] == 'bare':
+                written.append(expect)
+                continue
+            d = {'expect': expect}
+            if it['hasCredit']:
+                d['grade_decimal'] = num(it['credit'], short)
+            if it['hasMsg']:
+                d['msg'] = marker('A', it['msg'])
+            written.append(d)
+        self.answers = written[0] if nt['t'] == 'single' else tuple(written)
 
     def value(self, i, j, a, v):
         g = self.gname
@@ -307,9 +338,9 @@ def project(alts, wrong, form, call):
     return dict(base, grade=[q.numerator, q.denominator], msg=m)
 
 
-def run_case(gname, alts, wrong, form, short=False, listlen=2, variant=0):
+def run_case(gname, alts, wrong, form, short=False, listlen=2, variant=0, notation=None):
     """-> (projected observation, comparison order seen by TableGrader or None)"""
-    rd = Rendering(gname, alts, short=short, listlen=listlen, variant=variant)
+    rd = Rendering(gname, alts, short=short, listlen=listlen, variant=variant, notation=notation)
     holder = {}
 
     def call():
@@ -323,11 +354,11 @@ def run_case(gname, alts, wrong, form, short=False, listlen=2, variant=0):
     return obs, calls
 
 
-def describe(gname, alts, wrong, form, short=False, listlen=2, variant=0):
+def describe(gname, alts, wrong, form, short=False, listlen=2, variant=0, notation=None):
     """the concrete configuration as text, for violation reports"""
     from engine import repo
     repo.activate()
-    rd = Rendering(gname, alts, short=short, listlen=listlen, variant=variant)
+    rd = Rendering(gname, alts, short=short, listlen=listlen, variant=variant, notation=notation)
 
     def show(x):
         if isinstance(x, dict):
@@ -443,15 +474,16 @@ def replay_loop_states(states, extra):
 def report(ctx, b):
     if b is None:
         return
+    notation = b.get('notation') or make_notation(b['alts'], b['short'], b.get('variant', 0))
     sig = describe(b['grader'], b['alts'], b['wrong'], b['form'], short=b['short'], variant=b.get('variant', 0),
-                   listlen=b.get('listlen', 2))
+                   listlen=b.get('listlen', 2), notation=notation)
     sig['alternatives'] = b.get('descs') or b['alts']
     sig['allowed'] = b['allowed']
     sig['observed'] = b['observed']
     sig['class'] = b.get('clause') or classify(b['alts'], b['allowed'], b['observed'])
     sig['case'] = {'id': 0, 'grader': b['grader'], 'form': b['form'], 'short': b['short'],
                    'variant': b.get('variant', 0), 'listlen': b.get('listlen', 2), 'alts': b['alts'],
-                   'wrong': b['wrong']}
+                   'wrong': b['wrong'], 'notation': notation}
     ctx.violation(sig, '%s (%s) answers=%s wrong_msg=%r on %r: spec allows %s, code gave %s [%s]' % (
         sig['grader'], sig['form'], sig['answers'], sig['wrong_msg'], sig['input'],
         brief(b['allowed']), brief([b['observed']]), sig['class']))
@@ -508,7 +540,7 @@ def rand_case(rng, idx):
     wrong = {'id': 99, 'len': wl} if wl else NOMSG
     form = rng.choice(FORMS)
     return {'id': idx, 'grader': gname, 'form': form, 'short': rng.random() < 0.5, 'variant': rng.randint(0, 5),
-            'listlen': listlen, 'alts': alts, 'wrong': wrong}
+            'listlen': listlen, 'alts': alts, 'wrong': wrong, 'notation': make_notation(alts, rng=rng)}
 
 
 def observe_chunk(cases, extra):
@@ -517,10 +549,57 @@ def observe_chunk(cases, extra):
     recs = []
     for c in cases:
         obs, _ = run_case(c['grader'], c['alts'], c['wrong'], c['form'], short=c['short'], listlen=c['listlen'],
-                          variant=c['variant'])
+                          variant=c['variant'], notation=c['notation'])
         c = dict(c)
         c['obs'] = obs
         recs.append(c)
+    return recs
+
+
+def doc_example_records(start_id):
+    """docs/item_grader.md, 'Specifying Answers': the documented StringGrader with five alternatives, abstracted by
+    plain string equality (hit iff the submission equals a listed value) and judged like every other record"""
+    from engine import repo
+    repo.activate()
+    from mitxgraders import StringGrader
+    answers = ('wolf', 'canis lupus',
+               {'expect': 'dog', 'grade_decimal': 0.5, 'msg': 'No, not dog!'},
+               {'expect': 'unicorn', 'grade_decimal': 0, 'msg': 'No, not unicorn!'},
+               {'expect': ('werewolf', 'vampire'), 'grade_decimal': 0, 'msg': 'Wrong universe!'})
+    norm = [({'expect': a} if not isinstance(a, dict) else a) for a in answers]
+    recs = []
+    orders = [list(range(5)), [4, 3, 2, 1, 0], [2, 0, 4, 1, 3]]
+    for order in orders:
+        listing = tuple(answers[k] for k in order)
+        for wrong_text in ('Try again!', ''):
+            grader = StringGrader(answers=listing, wrong_msg=wrong_text)
+            for inp in ('wolf', 'canis lupus', 'dog', 'unicorn', 'werewolf', 'vampire', 'cat', 'Wolf'):
+                alts, texts, items = [], {'': NOMSG}, []
+                for pos, k in enumerate(order, 1):
+                    a = norm[k]
+                    values = a['expect'] if isinstance(a['expect'], tuple) else (a['expect'],)
+                    text = a.get('msg', '')
+                    m = {'id': pos, 'len': len(text)} if text else NOMSG
+                    texts[text] = m
+                    q = Fraction(a.get('grade_decimal', 1)).limit_denominator(8)
+                    alts.append({'credit': [q.numerator, q.denominator], 'msg': m,
+                                 'vals': [{'k': 'hit' if v == inp else 'miss', 'f': [1, 1] if v == inp else [0, 1],
+                                           'm': NOMSG, 'e': 'none', 'eid': 0} for v in values]})
+                    isdict = isinstance(answers[k], dict)
+                    items.append({'t': 'dict' if isdict else 'bare',
+                                  'expect': {'t': 'many' if isinstance(a['expect'], tuple) else 'one', 'vs': alts[-1]['vals']},
+                                  'hasCredit': isdict, 'credit': alts[-1]['credit'] if isdict else [1, 1],
+                                  'hasMsg': isdict, 'msg': m if isdict else NOMSG})
+                wrong = {'id': 99, 'len': len(wrong_text)} if wrong_text else NOMSG
+                texts[wrong_text] = wrong
+                r = grader(None, inp)
+                q = Fraction(float(r['grade_decimal'])).limit_denominator(4096)
+                obs = {'k': 'res', 'grade': [q.numerator, q.denominator],
+                       'msg': texts.get(r['msg'], {'id': -1, 'len': len(r['msg'])}), 'cls': 'none', 'eid': 0}
+                recs.append({'id': start_id + len(recs), 'grader': 'string', 'form': 'docs', 'short': True, 'variant': 0,
+                             'listlen': 2, 'alts': alts, 'wrong': wrong, 'obs': obs,
+                             'notation': {'t': 'tuple', 'items': items, 'item': items[0]},
+                             'doc': {'answers': repr(listing), 'wrong_msg': wrong_text, 'input': inp}})
     return recs
 
 
@@ -572,6 +651,7 @@ def run(ctx):
         if supported(c['grader'], c['alts'], c['listlen']):
             cases.append(c)
     recs = [r for chunk in dump.pmap('engine.adapters.c08', 'observe_chunk', cases) for r in chunk]
+    recs += doc_example_records(len(recs))
     rej = traces.validate(ctx, 'graders/BestAlternativeTrace.tla', 'graders/BestAlternativeTrace.cfg', recs)
     ctx.evaluations += len(recs)
     byid = {r['id']: r for r in recs}
@@ -581,15 +661,21 @@ def run(ctx):
         ctx.sample({'trace_record': r})
     for i, clause in rej.items():
         r = byid[i]
-        if clause == 'malformed-record':
+        if clause in ('malformed-record', 'notation-denotes-other-alternatives'):
             from engine.main import Machinery
             raise Machinery('the random driver produced a record outside the specification domain: %r' % (byid[i],))
         if clause == 'drift':
             ctx.note_drift('random case %d (%s/%s): result %s is allowed but not the modelled selection'
                            % (i, r['grader'], r['form'], brief([r['obs']])))
             continue
+        if r['form'] == 'docs':
+            sig = dict(r['doc'], grader='StringGrader (docs/item_grader.md example)', observed=r['obs'])
+            sig['class'] = clause
+            ctx.violation(sig, 'documented example %s wrong_msg=%r on %r: code gave %s [%s]' % (
+                sig['answers'], sig['wrong_msg'], sig['input'], brief([r['obs']]), clause))
+            continue
         report(ctx, {'alts': r['alts'], 'wrong': r['wrong'], 'grader': r['grader'], 'form': r['form'],
-                     'short': r['short'], 'variant': r['variant'], 'listlen': r['listlen'],
+                     'short': r['short'], 'variant': r['variant'], 'listlen': r['listlen'], 'notation': r['notation'],
                      'allowed': 'not in BestAlternative!AllowedOut (BestAlternativeTrace)', 'clause': clause,
                      'observed': r['obs']})
     bounds.update({'tier': ctx.tier, 'random_records': n, 'max_alternatives_exhaustive': 3 if ctx.quick else 4,
@@ -608,9 +694,13 @@ def run(ctx):
 def replay(ctx, rec):
     """re-run the recorded concrete case and let the trace specification judge it"""
     sig = rec['signature']
-    case = sig['case']
-    out = observe_chunk([case], None)
-    print('configuration:', {k: sig[k] for k in ('grader', 'form', 'answers', 'options', 'wrong_msg', 'input')})
+    if 'case' not in sig:       # a documented example: re-run all of them
+        out = [r for r in doc_example_records(0)
+               if r['doc']['input'] == sig['input'] and r['doc']['answers'] == sig['answers']
+               and r['doc']['wrong_msg'] == sig['wrong_msg']]
+    else:
+        out = observe_chunk([sig['case']], None)
+    print('configuration:', {k: sig.get(k) for k in ('grader', 'form', 'answers', 'options', 'wrong_msg', 'input')})
     print('observed now :', brief([out[0]['obs']]))
     rej = traces.validate(ctx, 'graders/BestAlternativeTrace.tla', 'graders/BestAlternativeTrace.cfg', out)
     rej = {k: v for k, v in rej.items() if v != 'drift'}
